@@ -76,9 +76,12 @@ Definition wiredE (c : circuit) : Prop := closed c ∧ node_part c ∧ edge_part
 Lemma closed'_iff c : closed' c ↔ closed c.
 Proof.
   unfold closed', closed. rewrite map_Forall_lookup. split.
-  - intros H n i f Hn Hf. by apply (H n i Hn).
-  - intros H n i Hn f Hf. eauto.
+  - intros H n i f Hn Hf. apply elem_of_dom. by apply (H n i Hn).
+  - intros H n i Hn f Hf. apply elem_of_dom. eauto.
 Qed.
+Lemma fanout_ok_spec c n t : fanout_ok c n t ↔
+  (t = BbIn → fanout c n = ∅) ∧ (t = BbOut → size (fanout c n) ≤ 1 ∧ set_Forall (λ m, ty c m = Some Buf) (fanout c n)).
+Proof. destruct t; simpl; split; try (intros H; split; intros [=]; done); try (intros [H1 H2]; auto; done). Qed.
 Lemma wired_iff c : wired c ↔ wiredE c.
 Proof.
   unfold wired, wiredE. rewrite closed'_iff, map_Forall_lookup. split.
@@ -86,7 +89,7 @@ Proof.
     + intros n i Hi. destruct (Hn n i Hi) as (? & ? & ? & _). done.
     + intros m j f Hm Hf.
       assert (Hfd : f ∈ dom c) by eauto. apply elem_of_dom in Hfd as [k Hk].
-      destruct (Hn f k Hk) as (_ & _ & _ & Hbi & Hbo).
+      destruct (Hn f k Hk) as (_ & _ & _ & [Hbi Hbo]%fanout_ok_spec).
       assert (Hmf : m ∈ fanout c f) by (apply elem_of_fanout; eauto).
       assert (Hty : ty c f = Some (n_ty k)) by (unfold ty; by rewrite Hk).
       rewrite Hty. split.
@@ -96,7 +99,7 @@ Proof.
         -- intros m' j' Hm' Hf'. eapply size_le_1_unique; [exact Hs| |done]. apply elem_of_fanout; eauto.
   - intros (Hc & Hn & He). split; [done|]. intros n i Hi. destruct (Hn n i Hi) as (? & ? & ?).
     assert (Hty : ty c n = Some (n_ty i)) by (unfold ty; by rewrite Hi).
-    repeat split; try done.
+    split; [done|]. split; [done|]. split; [done|]. apply fanout_ok_spec. split; [|intros H2; split].
     + intros E. apply set_eq. intros m. split; [|set_solver]. intros (j & Hj & Hf)%elem_of_fanout.
       destruct (He m j n Hj Hf) as [Hne _]. rewrite Hty, E in Hne. done.
     + apply size_le_1_unique. intros x y (jx & Hjx & Hfx)%elem_of_fanout (jy & Hjy & Hfy)%elem_of_fanout.
